@@ -133,6 +133,16 @@ def worker(kp, job):
             viol.append(('encodings', f'filter {f}: get_all_tokens_encodings differs from the listing', {'text': text, 'filter': f}))
         if key is not None and mc != [m for m in pre + post if m.startswith('!!!' + key)]:
             viol.append(('metacomments-key', f'get_metacomments({key!r}) = {mc}', {'text': text, 'key': key}))
+        if key is not None:
+            # clear=True strips the "!!!KEY: " prefix from the RESULT only: asked twice, the answer is the same
+            try:
+                c1 = doc.get_metacomments(key, clear=True)
+                c2 = doc.get_metacomments(key, clear=True)
+                wantc = [m.replace(f'!!!{key}: ', '') for m in pre + post if m.startswith('!!!' + key)]
+                if c1 != wantc or c2 != wantc or doc.get_metacomments() != pre + post:
+                    viol.append(('metacomments-key', f'get_metacomments({key!r}, clear=True) = {c1}, then {c2}; expected {wantc}', {'text': text, 'key': key}))
+            except Exception as e:
+                viol.append(('query-raises', f'get_metacomments({key!r}, clear=True) raised {type(e).__name__}', {'text': text, 'key': key}))
         nkern = sum(1 for h in g.headers if h == '**kern')
         want_mono = (nkern == 1 and not any(type(t).__name__ == 'ChordToken' for t in allt)
                      and any(type(t).__name__ == 'NoteRestToken' for t in allt))
